@@ -103,7 +103,7 @@ def _judge(rep, pid, paths, shards, label):
 
 
 def _neg_control(rep, pid, cases):
-    good = [c for c in cases.values() if c["kind"] == "dec" and not c["newerr"] and c["reads"] and len(c["reads"][0]["data"]) > 0 and c["honest"]][0]
+    good = [c for c in cases.values() if c["case"] not in rep.rejected_ids and c["kind"] == "dec" and not c["newerr"] and c["reads"] and len(c["reads"][0]["data"]) > 0 and c["honest"]][0]
     b1 = json.loads(json.dumps(good)); b1["case"] = "neg1"; b1["reads"][0]["data"][0] ^= 1
     b2 = json.loads(json.dumps(good)); b2["case"] = "neg2"; b2["reads"] = b2["reads"][:1] + [{"n": 1, "data": [], "res": "eof"}]
     b2["orig"] = b2["orig"] + [7]     # "clean EOF" before the whole payload
